@@ -25,6 +25,16 @@ def die(kind):
         os._exit(3)
     if kind == "sysexit":
         raise SystemExit(0)
+    if kind.startswith("raise:"):
+        # exception classes that executors, generators and the os give a meaning of their own
+        import concurrent.futures as cf
+        import errno
+
+        name = kind.split(":", 1)[1]
+        if name == "TimeoutError":
+            raise OSError(errno.ETIMEDOUT, "Connection timed out")  # becomes the builtin TimeoutError
+        raise {"CancelledError": cf.CancelledError, "StopIteration": StopIteration, "KeyboardInterrupt": KeyboardInterrupt,
+               "BrokenProcessPool": cf.process.BrokenProcessPool, "GeneratorExit": GeneratorExit, "MemoryError": MemoryError}[name]("injected")
 
 
 def task(i, kind, fail, delay):
@@ -52,7 +62,7 @@ def run_scenario(sc):
         res = f"SystemExit({e.code})"
     except ValueError:
         res = "ValueError"
-    except Exception as e:  # noqa: BLE001
+    except BaseException as e:  # noqa: BLE001
         res = "other:" + type(e).__name__
     return res, time.time() - t
 
